@@ -320,6 +320,9 @@ pub fn run(ctx: &mut Ctx) -> Result<(), Stop> {
     }
     const BOUNDARY: [i16; 8] = [63, 64, 65, 32767, 0, 127, 128, 32704];
     for _ in 0..steps {
+        if d.ctx.tape.exhausted() {
+            break;
+        }
         let op = d
             .ctx
             .weighted("c02.op", &[10, 6, 8, 3, 2, 1, 3, 1]);
